@@ -288,7 +288,7 @@ def bounded(run):
     from oracles import iso
     from oracles.o01_stereo import stereo_isomorphic
     quick = run.tier == 'quick'
-    max_nodes, trials = (6, 5) if quick else (7, 6)
+    max_nodes, trials = (6, 6) if quick else (7, 7)
     specs_small = ALL_SPECS
     specs_corpus = QUICK_SPECS if quick else ALL_SPECS
     n_rand = 3 if quick else 2
